@@ -1074,3 +1074,484 @@ class ProcessProjection(Contract):
 
     def at_call(self, E, pp, key, lst, level, projection_comments):
         return [Seg("process_projection", key, lst, level, projection_comments)]
+
+
+# ---------------------------------------------------------------------------------------------
+# pair lists (PATTERN / POINTS)
+# ---------------------------------------------------------------------------------------------
+
+def pair_line(pp, level, a, b):
+    return S.concat(ws(pp, level + 2), S.to_str(a), " ", S.to_str(b))
+
+
+@register
+class FormatPairList(Contract):
+    target = "mappyfile.pprint.PrettyPrinter.format_pair_list"
+    cases = ["abs", "two", "empty"]
+    props = ("C16", "C03")
+    modifies = ()
+
+    def build(self, E, case):
+        if case == "abs":
+            pl = E.abslist("pairs")
+        elif case == "two":
+            pl = [(E.int("a0"), E.real("b0")), (E.real("a1"), E.int("b1"))]
+        else:
+            pl = []
+        return (mk_pp(E), E.str("key"), pl, E.int("level")), {}
+
+    def ensures(self, E, case, args, kwargs, out):
+        pp, key, pl, level = args
+        ok = out.kind == "return" and isinstance(out.value, list) and len(out.value) >= 2
+        yield "returns-list", ok
+        if not ok:
+            return
+        lines = out.value
+        yield "opener", S.eq(lines[0], S.concat(ws(pp, level + 1), S.upper(key)))
+        yield "end", S.eq(lines[-1], end_line(pp, level + 1, key))
+        body = lines[1:-1]
+        if case == "abs":
+            good = len(body) == 1 and isinstance(body[0], Seg) and body[0].key[0] == "comprehension" and body[0].key[1].source is pl
+            yield "one-line-per-pair", good
+            if good and E.symbolic:
+                a, b = E.int("pa"), E.real("pb")
+                cond, val = body[0].key[1].apply((a, b))
+                yield "pair-line", S.and_(cond, S.eq(val, pair_line(pp, level, a, b)))
+        else:
+            yield "pair-lines", len(body) == len(pl) and S.and_(*[S.eq(l, pair_line(pp, level, p[0], p[1])) for l, p in zip(body, pl)])
+
+    def at_call(self, E, pp, key, pair_list, level):
+        return [Seg("format_pair_list", key, pair_list, level)]
+
+
+@register
+class FormatRepeatedPairList(Contract):
+    target = "mappyfile.pprint.PrettyPrinter.format_repeated_pair_list"
+    cases = ["single:1", "single:2", "multi:2", "multi:1"]
+    props = ("C16", "C03")
+    modifies = ()
+    doc = ("shape-bounded: one part of 1-2 pairs / 1-2 parts (the depth() helper recurses over the concrete shape); "
+           "an empty pair list is outside the precondition (max() of an empty sequence)")
+
+    def build(self, E, case):
+        kind, n = case.split(":")
+        n = int(n)
+        mkp = lambda i: (E.int(f"a{i}"), E.int(f"b{i}"))
+        if kind == "single":
+            root = [mkp(i) for i in range(n)]
+        else:
+            root = [[mkp(2 * j), mkp(2 * j + 1)] for j in range(n)]
+        return (mk_pp(E), "points", root, E.int("level")), {}
+
+    def ensures(self, E, case, args, kwargs, out):
+        pp, key, root, level = args
+        kind, n = case.split(":")
+        parts = [root] if kind == "single" else root
+        ok = out.kind == "return" and isinstance(out.value, list)
+        yield "returns-list", ok
+        if ok:
+            want = [Seg("format_pair_list", key, p, level) for p in parts]
+            yield "one-block-per-part", seq_eq(out.value, want)
+
+    def at_call(self, E, pp, key, root_list, level):
+        return [Seg("format_repeated_pair_list", key, root_list, level)]
+
+
+# ---------------------------------------------------------------------------------------------
+# complex-type grouping (C06)
+# ---------------------------------------------------------------------------------------------
+
+def complex_type_spec(key, v, level):
+    t = _tables()
+    return S.and_(S.not_(S.and_(S.eq(key, "symbol"), level > 0)),
+                  S.or_(S.in_const_set(key, t["cx"]), hidden_container(key, v)))
+
+
+@register
+class IsComplexType(Contract):
+    target = "mappyfile.pprint.PrettyPrinter.is_complex_type"
+    cases = ["str", "list", "composite"]
+    modifies = ()
+
+    def build(self, E, case):
+        key = E.str("key")
+        E.assume(S.eq(S.lower(key), key))     # representation invariant of Mapfile dicts (C17): keys are lower-case
+        v = mk_value(E, case) if case != "list" else [E.str("x")]
+        d = E.odict(entries=[(key, v)], ci=True)
+        return (mk_pp(E), d, key, E.int("level")), {}
+
+    def ensures(self, E, case, args, kwargs, out):
+        pp, d, key, level = args
+        v = d.entries[0][1]
+        yield "result", out.kind == "return" and S.eq(S.truthy(out.value), complex_type_spec(key, v, level))
+
+
+@register
+class SeparateComplex(Contract):
+    """stable partition: simple keys first, complex keys after, relative order kept inside each group;
+    values untouched; identity when the option is off.  Shapes: dicts of 0..3 items with symbolic keys;
+    longer dicts follow by the pair-projection argument (DESIGN C06): the relative order of two keys after
+    the loop depends only on the move_to_end calls on those two keys."""
+    target = "mappyfile.pprint.PrettyPrinter.separate_complex"
+    cases = ["off:2", "on:0", "on:1", "on:2", "on:3"]
+    props = ("C06", "C12")
+
+    def build(self, E, case):
+        flag, n = case.split(":")
+        n = int(n)
+        keys = [E.str(f"k{i}") for i in range(n)]
+        for i in range(n):
+            E.assume(S.eq(S.lower(keys[i]), keys[i]))
+            for j in range(i):
+                E.assume(keys[i] != keys[j])
+        vals = [E.str(f"v{i}") for i in range(n)]
+        self_cx = [E.bool(f"list{i}") for i in range(n)]
+        entries = list(zip(keys, vals))
+        d = E.odict(entries=entries, ci=True)
+        pp = mk_pp(E, separate=(flag == "on"))
+        return (pp, d, E.int("level")), {}
+
+    def ensures(self, E, case, args, kwargs, out):
+        pp, d, level = args
+        flag, n = case.split(":")
+        n = int(n)
+        yield "returns-None", out.kind == "return" and out.value is None
+        if out.kind != "return":
+            return
+        keys = [E.ctx.symbols[f"k{i}"] if E.symbolic else E.values.get(f"k{i}", "") for i in range(n)]
+        vals = [E.ctx.symbols[f"v{i}"] if E.symbolic else E.values.get(f"v{i}", "") for i in range(n)]
+        after = d.items() if not isinstance(d, dict) else list(d.items())
+        after = list(after)
+        yield "no-key-lost-or-added", len(after) == n
+        if len(after) != n:
+            return
+        if flag == "off":
+            yield "identity", S.and_(*[S.and_(S.eq(a[0], k), S.eq(a[1], v)) for a, k, v in zip(after, keys, vals)])
+            return
+        cx = [complex_type_spec(k, v, level) for k, v in zip(keys, vals)]
+        # position of original item i in the result
+        def pos(i):
+            p = -1
+            for j in range(n - 1, -1, -1):
+                p = S.ite(S.eq(after[j][0], keys[i]), j, p)
+            return p
+        ps = [pos(i) for i in range(n)]
+        for i in range(n):
+            yield f"item{i}-kept-with-value", S.and_(ps[i] >= 0, S.or_(*[S.and_(S.eq(ps[i], j), S.eq(after[j][1], vals[i])) for j in range(n)]))
+        for i in range(n):
+            for j in range(i + 1, n):
+                # i was before j
+                yield f"order({i},{j})", S.ite(S.eq(cx[i], cx[j]), ps[i] < ps[j], S.ite(cx[i], ps[j] < ps[i], ps[i] < ps[j]))
+
+    def at_call(self, E, pp, composite, level):
+        # used by _format on an abstract dict: the element-wise loop contract does not depend on item order
+        return None
+
+
+# ---------------------------------------------------------------------------------------------
+# _format and pprint
+# ---------------------------------------------------------------------------------------------
+
+SPECIAL_KEYS = ("pattern", "metadata", "validation", "values", "connectionoptions", "projection", "points", "config")
+
+
+def _add_type_comment_at_call(self, E, pp, level, comments, lines):
+    from pyvc.engine import MDict
+    from pyvc import models
+    if isinstance(comments, AbsComments):
+        lines.append(Seg("type-comment?", comments, level))
+        return None
+    if isinstance(comments, MDict) and comments.tail is None:
+        if "__type__" in comments:
+            c = composite_comment_spec(pp, level, comments["__type__"])
+            if E.interp.ctx.branch(S.truthy(c)):
+                lines.append(c)
+        return None
+    raise NotImplementedError
+
+
+AddTypeComment.at_call = _add_type_comment_at_call
+
+
+def _pa_comment_at_call(self, E, pp, comments, key):
+    return comment_suffix_any(E, comments, key)
+
+
+def comment_suffix_any(E, comments, key):
+    from pyvc.engine import MDict
+    from pyvc import models
+    if isinstance(comments, AbsComments):
+        return comments.suffix(E, key)
+    if isinstance(comments, MDict) and comments.tail is None:
+        I = E.interp
+        if not I.ctx.branch(models.mdict_contains(I, comments, key)):
+            return ""
+        return attribute_comment_spec(models.mdict_getitem(I, comments, key))
+    raise NotImplementedError
+
+
+ProcessAttributeComment.at_call = _pa_comment_at_call
+
+
+def comment_suffix(E, comments, key):       # noqa: F811  (final definition, used by the loop specs)
+    from pyvc.engine import MDict
+    if isinstance(comments, AbsComments):
+        return comments.suffix(E, key)
+    if isinstance(comments, MDict) and not comments.entries and comments.tail is None:
+        return ""
+    raise NotImplementedError("comment_suffix for " + repr(comments))
+
+
+class ChildrenLoop(LoopSpec):
+    """for v in value: lines += self._format(v, level + 1)"""
+
+    def carried(self, E, L, coll):
+        return {"lines": [Seg("_format.lines@pre2")]}
+
+    def exit_state(self, E, L, coll):
+        return {"lines": list(L["lines"]) + [Seg("children", coll, L["level"] + 1)]}
+
+    def element(self, E, case, coll):
+        return E.absdict("child", entries=[("__type__", E.str("child.type"))], ci=True)
+
+    def step(self, E, pre, post, elem, case):
+        yield "child-block-at-level+1", seq_eq(post["lines"], pre["lines"] + [Seg("_format", elem, post["level"] + 1)])
+
+
+FORMAT_ELEM_CASES = ["hidden", "childlist", "pattern", "keyvalue", "projection", "repeated", "points", "config",
+                     "composite", "attr:str", "attr:int", "attr:bool"]
+
+
+class FormatLoop(LoopSpec):
+    elem_cases = FORMAT_ELEM_CASES
+
+    def carried(self, E, L, coll):
+        return {"lines": [Seg("_format.lines@pre")]}
+
+    def exit_state(self, E, L, coll):
+        return {"lines": list(L["lines"]) + [Seg("_format.body", coll.info["owner"], L["level"])]}
+
+    def element(self, E, case, coll):
+        t = _tables()
+        attr = E.str("attr")
+        E.assume(S.eq(S.lower(attr), attr))
+        special = S.or_(S.in_const_set(attr, SPECIAL_KEYS), S.in_const_set(attr, t["rep"]))
+        if case == "hidden":
+            E.assume(is_hidden_key(attr))
+            return (attr, E.str("val"))
+        E.assume(S.not_(is_hidden_key(attr)))
+        if case == "childlist":
+            E.assume(S.in_const_set(attr, t["olk"]))
+            return (attr, E.abslist("children"))
+        if case == "pattern":
+            E.assume(S.eq(attr, "pattern"))
+            return (attr, E.abslist("pairs"))
+        if case == "keyvalue":
+            E.assume(S.in_const_set(attr, KEYVALUE_BLOCKS))
+            return (attr, E.absdict("kv", entries=[("__type__", attr)], ci=True, absent=("__comments__",)))
+        if case == "projection":
+            E.assume(S.eq(attr, "projection"))
+            return (attr, E.abslist("proj"))
+        if case == "repeated":
+            E.assume(S.in_const_set(attr, t["rep"]))
+            return (attr, E.abslist("rep"))
+        if case == "points":
+            E.assume(S.eq(attr, "points"))
+            return (attr, E.abslist("points"))
+        if case == "config":
+            E.assume(S.eq(attr, "config"))
+            return (attr, E.absdict("cfg", entries=[], ci=True, absent=("__type__",)))
+        E.assume(S.not_(special))
+        if case == "composite":
+            return (attr, E.absdict("child", entries=[("__type__", E.str("child.type"))], ci=True))
+        E.assume(S.not_(S.in_const_set(attr, t["olk"])))
+        return (attr, build_value(E, case.split(":")[1]))
+
+    def step(self, E, pre, post, elem, case):
+        attr, v = elem
+        pp = post["self"]
+        level = post["level"]
+        comments = post["comments"]
+        lines, base = post["lines"], pre["lines"]
+        if case == "hidden":
+            want = []
+        elif case == "childlist":
+            want = [Seg("children", v, level + 1)]
+        elif case == "pattern":
+            want = [Seg("format_pair_list", attr, v, level)]
+        elif case == "keyvalue":
+            want = [Seg("process_key_dict", attr, v, level)]
+        elif case == "projection":
+            want = [Seg("process_projection", attr, v, level, comment_suffix_any(E, comments, attr))]
+        elif case == "repeated":
+            want = [Seg("process_repeated_list", attr, v, level, post["aligned_max_indent"])]
+        elif case == "points":
+            want = [Seg("format_repeated_pair_list", attr, v, level)]
+        elif case == "config":
+            want = [Seg("process_config_dict", v, level)]
+        elif case == "composite":
+            want = [Seg("_format", v, level + 1)]
+        else:
+            amax = post["aligned_max_indent"]
+            line = S.concat(process_attribute_spec(E, pp, post["type_"], attr, v, level, amax),
+                            comment_suffix_any(E, comments, attr))
+            want = [line]
+            # C16 alignment: the value column lies past the keyword (at least one blank), and with
+            # align_values it is the same column for every simple keyword of the object
+            klen = S.length(S.upper(attr))
+            col = S.ite(S.eq(amax, 0), klen + 1, amax)
+            yield "separator-nonempty", S.implies(S.eq(klen, S.length(attr)), col > klen)
+        yield "lines-for-this-key", seq_eq(lines, base + want)
+
+
+@register
+class Format(Contract):
+    target = "mappyfile.pprint.PrettyPrinter._format"
+    cases = ["nocomments", "abscomments"]
+    props = ("C16", "C03", "C14", "C13")
+    loops = {1: FormatLoop(), 2: ChildrenLoop()}
+    nested = {2: (1, "childlist")}
+    modifies = ()     # separate_complex (the only writer) is used through its own contract
+    doc = ("comments + [ws(level)+TYPE] + body + [ws(level)+END(+ # TYPE)], body = concatenation over the items, in "
+           "order, of the lines the statement prescribes for the item's kind; nested objects by this contract at level+1")
+
+    def build(self, E, case):
+        t = _tables()
+        typ = E.str("type")
+        E.assume(S.in_const_set(typ, t["names"]))
+        entries = [("__type__", typ)]
+        absent = ()
+        if case == "abscomments":
+            entries.append(("__comments__", AbsComments()))
+        else:
+            absent = ("__comments__",)
+        d = E.absdict("composite", entries=entries, ci=True, absent=absent)
+        level = E.int("level")
+        E.assume(level >= 0)
+        return (mk_pp(E), d, level), {}
+
+    def ensures(self, E, case, args, kwargs, out):
+        pp, d, level = args
+        typ = d["__type__"]
+        ok = out.kind == "return" and isinstance(out.value, list)
+        yield "returns-list", ok
+        if not ok:
+            return
+        lines = out.value
+        n = 3 if case == "nocomments" else 4
+        yield "shape", len(lines) == n
+        if len(lines) != n:
+            return
+        if case == "abscomments":
+            yield "type-comment-first", isinstance(lines[0], Seg) and lines[0].key[0] == "type-comment?"
+        yield "opener", S.eq(lines[-3], S.concat(ws(pp, level), S.upper(typ)))
+        yield "body", isinstance(lines[-2], Seg) and lines[-2].key[0] == "_format.body" and lines[-2].key[1] is d
+        yield "end", S.eq(lines[-1], end_line(pp, level, typ))
+
+    def at_call(self, E, pp, composite, level=0):
+        return [Seg("_format", composite, level)]
+
+
+class PprintLoop(LoopSpec):
+    elem_cases = ["object", "keyvalue-root"]
+
+    def carried(self, E, L, coll):
+        return {"lines": [Seg("pprint.lines@pre")]}
+
+    def exit_state(self, E, L, coll):
+        return {"lines": list(L["lines"]) + [Seg("pprint.body", coll)]}
+
+    def element(self, E, case, coll):
+        t = E.str("root.type")
+        kv = S.in_const_set(t, ("metadata", "validation", "connectionoptions"))
+        E.assume(kv if case == "keyvalue-root" else S.not_(kv))
+        return E.absdict("root", entries=[("__type__", t)], ci=True)
+
+    def step(self, E, pre, post, elem, case):
+        if case == "object":
+            want = [Seg("_format", elem, 0)]
+        else:
+            want = [Seg("process_key_dict", elem["__type__"], elem, 0)]
+        yield "root-block", seq_eq(post["lines"], pre["lines"] + want)
+
+
+@register
+class Pprint(Contract):
+    target = "mappyfile.pprint.PrettyPrinter.pprint"
+    cases = ["one-object", "two-objects", "list"]
+    props = ("C16", "C03", "C12")
+    loops = {1: PprintLoop()}
+    loop_cases = {1: ["list"]}
+    modifies = ()
+    doc = "result = newlinechar.join(lines): every line break between lines is newlinechar"
+
+    def build(self, E, case):
+        mk = lambda i: E.absdict(f"root{i}", entries=[("__type__", E.str(f"type{i}"))], ci=True)
+        if case == "one-object":
+            c = mk(0)
+            E.assume(S.not_(S.in_const_set(c["__type__"], ("metadata", "validation", "connectionoptions"))))
+        elif case == "two-objects":
+            c = [mk(0), mk(1)]
+            for x in c:
+                E.assume(S.not_(S.in_const_set(x["__type__"], ("metadata", "validation", "connectionoptions"))))
+        else:
+            c = E.abslist("composites", truthy=True)
+        return (mk_pp(E), c), {}
+
+    def ensures(self, E, case, args, kwargs, out):
+        # the join over Segs is not a string: the engine's join keeps it symbolic as JoinOf
+        yield "returns", out.kind == "return"
+        if out.kind != "return":
+            return
+        pp, c = args
+        r = out.value
+        good = isinstance(r, JoinOf) and S.truthy(S.eq(r.sep, pp.newlinechar)) is True
+        yield "joined-with-newlinechar", good
+        if not good:
+            return
+        if case == "one-object":
+            yield "lines", seq_eq(r.parts, [Seg("_format", c, 0)])
+        elif case == "two-objects":
+            yield "lines", seq_eq(r.parts, [Seg("_format", c[0], 0), Seg("_format", c[1], 0)])
+        else:
+            yield "lines", len(r.parts) == 1 and isinstance(r.parts[0], Seg) and r.parts[0].key[0] == "pprint.body"
+
+
+class JoinOf:
+    """sep.join(parts) where parts contains opaque segments"""
+    def __init__(self, sep, parts):
+        self.sep = sep
+        self.parts = parts
+
+
+def _install_join_model():
+    from pyvc import models
+    orig = models._sym_str_join
+
+    def join(I, s, xs):
+        from pyvc.absx import Seg
+        if isinstance(xs, list) and any(isinstance(x, Seg) for x in xs):
+            return JoinOf(s, list(xs))
+        return orig(I, s, xs)
+    models._sym_str_join = join
+    models._SYM_STR_METHODS["join"] = join
+    orig_str = models.py_str
+
+    def py_str(I, v):
+        if isinstance(v, JoinOf):
+            return v
+        return orig_str(I, v)
+    models.py_str = py_str
+    orig_truth = models.py_truth
+
+    def py_truth(I, v):
+        if isinstance(v, AbsColl):
+            if v.info.get("truthy"):
+                return True
+            if "length" in v.info:
+                return S.cmp(">", v.info["length"], 0)
+        return orig_truth(I, v)
+    models.py_truth = py_truth
+
+
+_install_join_model()
